@@ -179,12 +179,17 @@ def ek_method(name, b, ea):
 
 
 # ---------------------------------------------------------------------------------------------- abstract values
+_DEG0 = object()
+
+
 class V:
     __slots__ = ("k", "cls", "is_self", "elem", "const", "anc", "deps", "deg", "fresh", "label", "shares", "ek",
                  "meths", "node", "carrier", "recv")
 
-    def __init__(self, k, cls=None, is_self=False, elem=None, const=None, anc=F(), deps=F(), deg=None, fresh=True,
+    def __init__(self, k, cls=None, is_self=False, elem=None, const=None, anc=F(), deps=F(), deg=_DEG0, fresh=True,
                  label=False, shares=F(), ek=F(), meths=None, node=None, carrier=None, recv=None):
+        if deg is _DEG0:       # default: degree 0 in everything; an explicit None is bottom (zero / empty)
+            deg = {}
         self.k = k
         self.cls = F(cls) if cls else F()
         self.is_self = is_self
@@ -211,7 +216,7 @@ class V:
         return f"V({self.k},{set(self.cls) or ''},anc={sorted(self.anc)},deps={sorted(self.deps)},deg={self.deg})"
 
 
-def raw(deps=F(), deg=None, const=None, carrier=None):
+def raw(deps=F(), deg=_DEG0, const=None, carrier=None):
     return V("raw", deps=deps, deg=deg, const=const, carrier=carrier)
 
 
@@ -225,7 +230,7 @@ def join(vs):
     if len(vs) == 1:
         return vs[0]
     ks = {v.k for v in vs}
-    for pref in ("E", "obj", "list", "dict", "meth"):
+    for pref in ("E", "obj", "list", "dict", "meth", "raw"):
         if pref in ks:
             k = pref
             break
@@ -318,6 +323,7 @@ class Interp:
         self.pm = pm
         self.free = {n: pm.functions[n] for n in free_functions if n in pm.functions}
         self.kind_hook = None    # (class, calculated attr) -> frozenset of explainable kinds, supplied by the engine
+        self.deg_hook = None     # (class, attr) -> degree in the driver under study ({} = 0, {'*': k}, None = bottom)
 
     # -------------------------------------------------------------------------------------------- entry points
     def run_method(self, cls, name, cx=None, args=(), kwargs=None):
@@ -421,7 +427,8 @@ class Interp:
                     ek = F({"EMPTY"})
                 else:
                     ek = ai.valkinds
-                outs.append(V("E", anc={ref}, deps={ref}, deg={(cn, attr): 1}, fresh=False, label=True,
+                deg = self.deg_hook(cn, attr) if self.deg_hook else {(cn, attr): 1}
+                outs.append(V("E", anc={ref}, deps={ref}, deg=deg, fresh=False, label=True,
                               shares={ref}, ek=ek))
             else:
                 outs.append(RAW0())
@@ -687,6 +694,8 @@ class Interp:
     def call_on_value(self, b, name, e, args, kw, alld, env, cx):
         a0 = args[0] if args else None
         where = cx.where()
+        if b.k == "none":
+            return V("none", deg=None)     # a method call on None raises: this path is infeasible (bottom)
         if b.k == "E":
             if name in E_METHODS:
                 s = E_METHODS[name]
